@@ -1245,12 +1245,14 @@ class Model(Object):
 
         """
         original_direction = self.objective.direction
-        self.objective.direction = {"maximize": "max", "minimize": "min"}.get(
-            objective_sense, original_direction
-        )
-        self.slim_optimize()
-        solution = get_solution(self, raise_error=raise_error)
-        self.objective.direction = original_direction
+        try:
+            self.objective.direction = {"maximize": "max", "minimize": "min"}.get(
+                objective_sense, original_direction
+            )
+            self.slim_optimize()
+            solution = get_solution(self, raise_error=raise_error)
+        finally:
+            self.objective.direction = original_direction
         return solution
 
     def repair(
